@@ -127,4 +127,20 @@ example : shapeOf (fun t => match t with
     | .app ".is_integer" _ => true | .app ".is_number" _ => true | _ => false) true
     = { rank1 := false, rank2 := false, inv := some true } := by decide
 
+/-! ### the outer body of `sort`: ONE `np.lexsort` over the per-key sort keys, LAST given key first in the tuple, every column
+      gathered at the same permutation -/
+
+/-- **sort as written** (for any local `sort_key` definition `k`, which `sort_key_code` above characterises): the keys are
+    `sort_key(*x)` for the (column, direction) pairs taken in REVERSED order — `np.lexsort` sorts by its LAST key first, so
+    the first pair the caller gave is the primary key, the second breaks its ties, and so on for any number of keys —;
+    every column of the receiver, in dict order, is `column[indices].copy()` for that ONE index vector. -/
+theorem sort_outer_code (truth : Term → Bool) :
+    ∃ k : Term, DataFrame_sort truth =
+      let indices := Term.app "np.lexsort" [Term.app "tuple()" [Term.app "GeneratorExp" [Term.app "call" [k, Term.app "*" [Term.sym "x"]],
+        Term.app "in" [Term.sym "x", Term.app "reversed" [Term.app ".items" [Term.sym "colname_dir_pairs"]], Term.app "if" []]]]]
+      Out.fall [perColumn (fun c => Term.app ".copy" [Term.app "getitem" [c, indices]])] :=
+  ⟨_, rfl⟩
+
+theorem sort_signature : DataFrame_sort_signature = ["self", "**colname_dir_pairs"] ∧ DataFrame_sort_decorators = ["deco.new_from_generator"] := ⟨rfl, rfl⟩
+
 end DI.Tie.C03
